@@ -31,9 +31,10 @@ pub(crate) fn crypto_scalarmult_curve25519(
     n: &[u8; CRYPTO_SCALARMULT_CURVE25519_SCALARBYTES],
     p: &[u8; CRYPTO_SCALARMULT_CURVE25519_BYTES],
 ) {
-    let sk = Scalar::from_bytes_mod_order(clamp(n));
-    let pk = MontgomeryPoint(*p);
-    let shared_secret = sk * pk;
+    // The clamped scalar must be used as is: reducing it modulo the group
+    // order changes the result for every point outside the prime-order
+    // subgroup (points on the twist, points with a small-order component).
+    let shared_secret = MontgomeryPoint(*p).mul_clamped(*n);
 
     q.copy_from_slice(shared_secret.as_bytes());
 }
